@@ -183,6 +183,8 @@ def run_case(ctx, shape, recursive, linear):
     jac.stream(ctx, shape, 'real', 'J', case)
     # J_log (the Jacobian the Log-semiring backward pass uses) against its model `Jl.jlogLabel` (theorem C03.jlog_is_logDerivative)
     jac.stream_jlog(ctx, shape, case)
+    # SumProduct.backward (autograd through sum_products, all components) against its model `Bw.backward` (theorem C03.backward_is_adjoint)
+    jac.stream_backward(ctx, shape, case, recursive)
     if 'vweights' in shape:
         jac.stream(ctx, shape, 'viterbi', 'J', case)
     nontriv = any(d != 0 for e in entries for d in model[e])
